@@ -18,7 +18,7 @@ import (
 // Version and Issuer, raw and compressed. Fit is thin (no fault or schedule essential).
 
 var c20Ops = []string{"none", "dup-id", "dup-destination", "shadow-id-before", "shadow-id-after", "shadow-all-after", "second-issuer-last", "second-issuer-first", "issuer-after-status",
-	"nested-issuer", "foreign-ns-issuer", "comment-in-issuer", "cdata-in-issuer", "charref-in-issuer", "whitespace-around-issuer", "xml-decl-and-comment", "dup-version", "dup-inresponseto", "issuer-empty-then-real", "trailing-issuer"}
+	"nested-issuer", "foreign-ns-issuer", "comment-in-issuer", "cdata-in-issuer", "charref-in-issuer", "whitespace-around-issuer", "xml-decl-and-comment", "dup-version", "dup-inresponseto", "issuer-empty-then-real", "trailing-issuer", "pi-in-issuer", "pi-before-issuer-text", "envelope-issuer-differs"}
 
 func init() {
 	register(&Prop{
@@ -28,7 +28,7 @@ func init() {
 			"oracle: whenever validation under any configured SP accepts, the pre-decode succeeded and reports the same ID, InResponseTo, Destination, Version, Issuer, so the routed-to configuration is the accepting one; distinct = shape hash (kind, placement, layout, envelope ops, presentation, outcomes)",
 		Directed:   c20Directed,
 		Run:        c20Run,
-		MustHit:    []string{"kind=Response", "kind=LogoutResponse", "op=dup-id", "op=shadow-id-after", "op=second-issuer-last", "op=second-issuer-first", "op=nested-issuer", "op=comment-in-issuer", "compressed", "skip_config", "accepted_with_ops", "route_to_B"},
+		MustHit:    []string{"kind=Response", "kind=LogoutResponse", "op=dup-id", "op=shadow-id-after", "op=second-issuer-last", "op=second-issuer-first", "op=nested-issuer", "op=comment-in-issuer", "compressed", "skip_config", "accepted_with_ops", "route_to_B", "op=pi-in-issuer", "issuer_unconfigured"},
 		RandomRuns: map[string]int{"quick": 6000, "thorough": 80000},
 	})
 }
@@ -80,6 +80,10 @@ func c20Run(r *core.Run) {
 			issuers[1] += "b"
 		}
 	}
+	noIssuerPinned := t.Int(4, "c20.noissuer") == 1
+	if noIssuerPinned {
+		r.Probe("issuer_unconfigured")
+	}
 	keys := []int{0, 1}
 	var nodes []*world.SPNode
 	var certs []*world.Cert
@@ -89,6 +93,9 @@ func c20Run(r *core.Run) {
 		cfg := *s.Cfg
 		cfg.Name = fmt.Sprintf("sp-for-idp-%c", 'A'+i)
 		cfg.IdPIssuer = issuers[i]
+		if noIssuerPinned {
+			cfg.IdPIssuer = ""
+		}
 		cfg.Store = &world.SimCertStore{Certs: []*world.Cert{c}}
 		cfg.SkipSig = skip
 		cfg.AllowMissing = true
@@ -231,7 +238,7 @@ func c20Run(r *core.Run) {
 			r.Fail("agree", "C20/pre-decode-differs/"+kind+"/Issuer-presence", ctx)
 		}
 		// the configuration chosen from the pre-decode is the accepting one
-		if !r.Failed() && !skip && p.issuer != n.Cfg.IdPIssuer {
+		if !r.Failed() && !skip && !noIssuerPinned && p.issuer != n.Cfg.IdPIssuer {
 			r.Fail("route", "C20/routed-to-other-configuration", ctx)
 		}
 	}
@@ -315,6 +322,23 @@ func c20Apply(xml, op string, m *world.LResponse, other string) (string, bool) {
 			return xml, false
 		}
 		return strings.Replace(xml, issEl, issOpen+fmt.Sprintf("&#x%x;", issText[0])+issText[1:]+issClose, 1), true
+	case "pi-in-issuer":
+		if len(issText) < 2 {
+			return xml, false
+		}
+		cut := len(issText) / 2
+		for cut > 0 && (issText[cut]&0xC0 == 0x80 || issText[cut-1] == '&' || strings.ContainsAny(issText[max0(cut-6):cut], "&")) {
+			cut--
+		}
+		if cut == 0 {
+			return xml, false
+		}
+		return strings.Replace(xml, issEl, issOpen+issText[:cut]+"<?idp tenant=\"7\"?>"+issText[cut:]+issClose, 1), true
+	case "pi-before-issuer-text":
+		return strings.Replace(xml, issEl, issOpen+"<?idp x?>"+issText+issClose, 1), true
+	case "envelope-issuer-differs":
+		// only meaningful where no issuer is pinned: the envelope names another issuer than the assertions
+		return strings.Replace(xml, issEl, otherEl, 1), true
 	case "whitespace-around-issuer":
 		return strings.Replace(xml, issEl, "\n  "+issEl+"\n  ", 1), true
 	case "xml-decl-and-comment":
@@ -324,4 +348,11 @@ func c20Apply(xml, op string, m *world.LResponse, other string) (string, bool) {
 		return `<?xml version="1.0" encoding="UTF-8" standalone="no"?>` + "\n<!-- routed -->\n" + xml, true
 	}
 	return xml, false
+}
+
+func max0(a int) int {
+	if a < 0 {
+		return 0
+	}
+	return a
 }
